@@ -261,6 +261,17 @@ Example C08_ex_combine_value :
   = Some (40 # 3)%Q.
 Proof. split; vm_compute; reflexivity. Qed.
 
+(* an explicit fill_value -- including the falsy 0 / 0.0 -- is the value written to empty cells and the value that marks
+   invalid input, for every arithmetic instance; only None selects the default (NaN / dtype maximum) *)
+Theorem C08_explicit_fill_is_used : forall {T} (OP : ops T) (f dflt v : T),
+  grid_value (effective_fill (Some f) dflt) None = f /\
+  classify OP (effective_fill (Some f) dflt) v = classify OP f v /\
+  grid_value (effective_fill None dflt) None = dflt.
+Proof. intros. repeat split. Qed.
+Print Assumptions C08_explicit_fill_is_used.
+Example C08_ex_fill_zero : grid_value (effective_fill (Some 0%Q) (1 # 0)%Q) None = 0%Q /\ classify QO (effective_fill (Some 0%Q) 7%Q) 0%Q = None.
+Proof. split; reflexivity. Qed.
+
 (* masked-array entry point of fornav: the result is masked where _mask_helper (regenerated from ewa.py) says so, which
    is exactly where a value would be classified as invalid input (NaN equals nothing: first hypothesis; a written
    cell is the fill or a number: second) *)
